@@ -68,12 +68,12 @@ def data_cases(rng, m):
     opt = mode.endswith("opt")
     out = []
     if mode in ("raw", "raw_opt"):
-        b = bytes(rng.randrange(256) for _ in range(rng.choice([0, 1, 5])))
+        b = bytes(rng.randrange(256) for _ in range(rng.choice([0, 1, 5, 128, 300])))
         out.append(("present", b, "E:-", ("rawopt:" if opt else "raw:") + b.hex()))
         out.append(("absent", None, "E:-", "rawopt:none" if opt else "ERR missing"))
         return out
     if mode in ("inst", "inst_opt"):
-        inner = rng.choice([None, b"", b"\x01\x02", b"{}"])
+        inner = rng.choice([None, b"", b"\x01\x02", b"{}", bytes(rng.randrange(256) for _ in range(rng.choice([128, 200, 16384])))])
         addr = rng.choice(["contract0", "a", "cosmwasm1xyz"])
         shown = "%s:%s" % (addr, inner.hex() if inner else "none")
         out.append(("present", env_inst(addr, inner), "E:inst:%s:%s" % (hx(addr.encode()), hx(inner) if inner else "-"),
@@ -85,6 +85,9 @@ def data_cases(rng, m):
     v = corpus.rand_value(rng, inner_ty)
     text = corpus.jtext(v)
     out.append(("present", env_exec(text.encode()), "E:exec:" + hx(text.encode()), text))
+    # the same value in a long document (JSON white space around it): the envelope's length prefix then takes two or three bytes
+    padded = (" " * rng.choice([1, 40]) + text).ljust(rng.choice([127, 128, 129, 300, 16383, 16384, 20000])).encode()
+    out.append(("present", env_exec(padded), "E:exec:" + hx(padded), text))
     out.append(("absent", None, "E:-", "null" if opt else "ERR missing"))
     out.append(("bad-envelope", rng.choice(BAD_EXEC), "E:bad", "ERR envelope"))
     wrong = corpus.wrong_value(rng, inner_ty)
